@@ -118,10 +118,17 @@ Fixpoint spaces (n : nat) : bstring := match n with O => [] | S k => 32 :: space
 Definition is_repr_char (c : byte) : bool := (c =? 114) || (c =? 105) || (c =? 97) || (c =? 109).
 Definition last_seg (s : bstring) : bstring :=       (* the part after the last slash *)
   fold_left (fun acc ch => if ch =? 47 then [] else acc ++ [ch]) s [].
+(* an explicit .z (no representation) is dropped again, unless it is needed *)
+Definition drop_dot_z (s : bstring) : bstring :=
+  match rev s with
+  | 122 :: 46 :: (_ :: _) as r => rev (tl (tl (rev s)))
+  | _ => s
+  end.
 Definition strip_code (c : wctx) (code : bstring) : bstring :=
-  match last_seg code with
-  | [x] => if w_reprz c && is_repr_char x then code ++ [46; 122] else code
-  | _ => code
+  let body := if w_reprz c then drop_dot_z code else code in
+  match last_seg body with
+  | [x] => if w_reprz c && is_repr_char x then body ++ [46; 122] else body
+  | _ => body
   end.
 
 (* _GD_WriteFieldCode for an input field *)
